@@ -204,7 +204,7 @@ def jobs(tier):
         if 'C13' in props:
             J.append(API(fn, call, props, ring=8, tiers=('thorough',)))
     for st in AT_STATES:
-        J.append(L1('at', st, 'sh17', tiers=('thorough',)))
+        J.append(L1('at', st, 'sh17', tiers=('quick', 'thorough') if st in ('READ_LOOP', 'TEST_LOOP', 'PARSE_COMMAND_ARGS') else ('thorough',)))
     for st in UN_STATES:
         J.append(L1('un', st, 'sh17', tiers=('thorough',)))
     for st in AT_STATES:
